@@ -1,6 +1,7 @@
 package main
 
 import (
+	"github.com/flowmatters/openwater-core/data"
 	"bufio"
 	"encoding/json"
 	"fmt"
@@ -119,6 +120,20 @@ func h5lockEngine(args []string) error {
 			return err
 		}
 	}
+	// a LARGE array (600 x 500) of which every second row forms a non-contiguous 300 x 500 view: whatever the package
+	// does differently above some size (block-wise transfers, helper goroutines) must still round-trip exactly and
+	// still make every library call under the lock
+	const bigR, bigC = 600, 500
+	bigRoot := data.NewArray2DFloat64(bigR, bigC)
+	for i := 0; i < bigR; i++ {
+		for j := 0; j < bigC; j++ {
+			bigRoot.Set2(i, j, float64(i*1000+j))
+		}
+	}
+	bigView := bigRoot.Slice([]int{0, 0}, []int{bigR / 2, bigC}, []int{2, 1})
+	if err := (owio.H5RefFloat64{Filename: file2, Dataset: "/big"}).Write(bigView); err != nil {
+		return err
+	}
 	var loadFails []map[string]interface{}
 	var lfMu sync.Mutex
 	mu.Lock()
@@ -142,7 +157,33 @@ func h5lockEngine(args []string) error {
 				}
 				ref := owio.H5RefFloat64{Filename: fn, Dataset: ds}
 				var name string
-				switch r.Intn(9) {
+				switch r.Intn(11) {
+				case 9:
+					name = "WriteBig"
+					(owio.H5RefFloat64{Filename: file2, Dataset: "/big"}).Write(bigView)
+				case 10:
+					name = "LoadBig"
+					got, err := owio.H5RefFloat64{Filename: file2, Dataset: "/big"}.Load()
+					bad := ""
+					if err != nil {
+						bad = "error: " + err.Error()
+					} else if sh := got.Shape(); len(sh) != 2 || sh[0] != bigR/2 || sh[1] != bigC {
+						bad = fmt.Sprintf("shape %v, written %v", sh, []int{bigR / 2, bigC})
+					} else {
+						for i := 0; i < bigR/2 && bad == ""; i++ {
+							for j := 0; j < bigC; j++ {
+								if v := got.Get([]int{i, j}); v != float64(2*i*1000+j) {
+									bad = fmt.Sprintf("element [%d,%d] = %v, written %d", i, j, v, 2*i*1000+j)
+									break
+								}
+							}
+						}
+					}
+					if bad != "" {
+						lfMu.Lock()
+						loadFails = append(loadFails, map[string]interface{}{"kind": "big-roundtrip", "detail": "a 300 x 500 dataset written from a strided view and loaded whole: " + bad})
+						lfMu.Unlock()
+					}
 				case 0:
 					name = "Load"
 					ref.Load()
